@@ -495,7 +495,17 @@ class IMAPClientCommand:
         init method so that if we hit a parsing exception the actual object
         gets created at least and potentially has self.tag set.
         """
-        self._parse()
+        try:
+            self._parse()
+        except BadCommand:
+            raise
+        except Exception as exc:
+            # Whatever else goes wrong while making sense of the client's
+            # input (an impossible date such as "31-Feb-2020", a number we
+            # can not convert, ...) is a syntax error of that input: the
+            # client must get a BAD, not lose its connection.
+            #
+            raise BadSyntax(f"unable to parse command: {exc}") from exc
         return self
 
     ####################################################################
